@@ -182,7 +182,8 @@ func SharedLexemesOnly(src []byte) []string {
 				end = len(src) // not terminated: the comment runs to the end of the source
 			}
 			span := src[t.Pos:spanEnd(src, t.Pos, end)]
-			if strings.ContainsRune(string(span), '\r') {
+			isLine := src[t.Pos] == '/' && byteAt(src, t.Pos+1) == '/'
+			if !isLine && strings.ContainsRune(string(span), '\r') {
 				add("x:comment-cr")
 			}
 			if len(span) >= 7 && string(span[2:7]) == "line " {
